@@ -183,13 +183,23 @@ class Real:
     def new_env(self):
         return self.eval.EvalEnvironment()
 
-    def _note(self, text, env, t0):
+    def _note(self, text, env, t0, outcome=None):
         """remember top-level expressions evaluated in a fresh environment (for the generic re-evaluation oracle)"""
         if env is not None or not isinstance(text, str):
             return
         seen = self.__dict__.setdefault("seen", {})
         if text not in seen and len(seen) < 200000:
             seen[text] = time.process_time() - t0
+        first = self.__dict__.setdefault("first_outcome", {})
+        if outcome is not None and text not in first and len(first) < 20000:
+            first[text] = outcome
+
+    def _canon(self, v):
+        try:
+            import alias_common
+            return alias_common.deep_canon(v, self.types)
+        except Exception:  # noqa
+            return None
 
     def value(self, text, env=None, timeout=5.0):
         """tokenise → parse → eval → reduce_result.  Returns ('ok', value) or ('err', code)."""
@@ -200,7 +210,7 @@ class Real:
                 tree = self.parse.parse_tokens(toks)
                 v = self.eval.eval_parse_tree(tree, env)
                 v = self.interpret.reduce_result(v)
-            self._note(text, env, t0_)
+            self._note(text, env, t0_, ("value", self._canon(v)))
             return ("ok", v)
         except BaseException as e:  # noqa
             if isinstance(e, (KeyboardInterrupt, SystemExit)):
@@ -217,7 +227,7 @@ class Real:
             with alarm(timeout):
                 status = self.interpret.execute(text, env=env, out=out, errout=err, result_box=box, **kw)
             if status == 0 and not kw:
-                self._note(text, env, t0_)
+                self._note(text, env, t0_, ("execute", out.getvalue()))
         except BaseException as e:  # noqa
             if isinstance(e, (KeyboardInterrupt, SystemExit)):
                 raise
@@ -662,6 +672,7 @@ def main(argv):
             mod.check(ctx)
             if not getattr(mod, "NO_REPEAT_ORACLE", False):
                 repeat_oracle(ctx)
+                history_oracle(ctx)
         except Infra:
             raise
         except Timeout:
@@ -772,3 +783,33 @@ def repeat_oracle(ctx, n_quick=120, n_thorough=1500):
             ctx.violation("repeat:" + text, "{%s : i_ in 1..3}" % text, a["out"].strip()[:200],
                           (b["out"].strip() or "status %s %s %s" % (b["status"], b["escaped"] or "", b["err"].strip()))[:200],
                           "execute('{E : i_ in 1..3}') against execute('{E, E, E}') for E = %r" % text)
+
+
+def history_oracle(ctx, n_quick=250, n_thorough=3000):
+    """Expressions this run evaluated in a FRESH environment early on are evaluated again at the very end, after everything
+    else the check did in this process (failing parses, other kinds, other units, commands): the outcome must be the same.
+    State that outlives an evaluation — counters, memo tables, registries updated on lookup — shows up here."""
+    R = ctx.real
+    first = getattr(R, "first_outcome", None)
+    if not first:
+        return
+    seen = getattr(R, "seen", {})
+    cands = [t for t in first if seen.get(t, 1) < 0.05 and 0 < len(t) < 400 and first[t][1] is not None and " object at 0x" not in first[t][1]
+             and not REPEAT_SKIP.search(t.replace("==", "").replace("<=", "").replace(">=", "").replace("!=", "").replace(";", "").replace("=", ""))
+             and "\n" not in t and "%" not in t]
+    rng = random.Random(ctx.seed * 104729 + 5)
+    early = cands[: ctx.n(n_quick, n_thorough) // 2]
+    rest = cands[len(early):]
+    pick = early + rng.sample(rest, min(len(rest), ctx.n(n_quick, n_thorough) // 2))
+    for text in pick:
+        kind, before = first[text]
+        if kind == "value":
+            k, v = R.value(text)
+            now = R._canon(v) if k == "ok" else "err " + str(v)
+        else:
+            r = R.execute(text)
+            now = r["out"] if (r["status"] == 0 and not r["escaped"]) else "status %s %s %s" % (r["status"], r["escaped"] or "", r["err"].strip()[:120])
+        ctx.count("again:" + text, bucket="evaluated again at the end")
+        if now != before and now is not None:
+            ctx.violation("history:" + text, text + "     (evaluated again at the end of the run, fresh environment)", str(before).strip()[:200], str(now).strip()[:200],
+                          "the same process evaluates other inputs in between; first and last outcome of execute(%r) differ" % text)
